@@ -295,7 +295,7 @@ func runC19() *RunResult {
 	}
 	nt := 1
 	if chance(35) {
-		nt = 2 + rn(3)
+		nt = 2 + rn(widen(3))
 	}
 	n := corpusSize() // histories draw base items; twins are reached through "modify, parse again"
 	cases := []uint64{}
